@@ -262,7 +262,9 @@ HISTORIES = ["completed", "failed", "cancelled_in_flight", "cancelled_queued", "
 def run_retain(case, res):
     layer = case["layer"]
     layers = layer.split(">")
-    for hist in HISTORIES:
+    for hist, keep_outer in [(h, k) for h in HISTORIES for k in (False, True)]:
+        if keep_outer and layers == ["cos"]:
+            continue  # cancel_on_shutdown hands out the delegate's own future
         if hist == "cancelled_queued" and "throttle" not in layers:
             continue
         if hist in ("cancelled_between_retries", "completed_after_retry") and "retry" not in layers:
@@ -285,6 +287,8 @@ def run_retain(case, res):
             wr["future"] = weakref.ref(f)
             instr.advance(0.05)
             mine = [k for k, it in enumerate(me.items) if it[1] is job]
+            for k in mine:
+                wr["delegate-future#%d" % k] = weakref.ref(me.fut(k))
             ok = True
             if hist == "completed":
                 for k in mine:
@@ -327,7 +331,12 @@ def run_retain(case, res):
             if not ok or not done:
                 res.count("history_not_reached")
                 continue
-            # the user drops everything; the delegate forgets its finished work
+            # the user drops everything (or keeps only the finished future); the delegate forgets its finished work
+            for k in [k for k, it in enumerate(me.items) if it[1] is job]:
+                wr.setdefault("delegate-future#%d" % k, weakref.ref(me.fut(k)))
+            kept = f if keep_outer else None
+            if keep_outer:
+                del wr["future"]
             del f, job, arg, res_obj, filler
             me.forget()
             gc.collect()
@@ -336,15 +345,20 @@ def run_retain(case, res):
             res.execs += 1
             check_common(res)
             for what, r in wr.items():
+                if keep_outer and what == "result":
+                    continue  # the kept future owns its outcome
                 o = r()
                 if o is not None:
-                    res.violation("retained/%s/%s" % (hist, what),
-                                  "%s history=%s: %s still referenced after the future was done, dropped and gc ran; held by %s"
-                                  % (layer, hist, what, referrer_summary(o)))
+                    what_ = what.split("#")[0]
+                    res.violation("retained/%s/%s%s" % (hist, what_, "/by-held-future" if keep_outer else ""),
+                                  "%s history=%s%s: %s still referenced after the future was done%s and gc ran; held by %s"
+                                  % (layer, hist, " (user keeps the finished future)" if keep_outer else "", what,
+                                     "" if keep_outer else ", dropped", referrer_summary(o)))
                     del o
             alive = [t.vf_role for t in threads if t.is_alive()]
-            res.key("retain", layer, hist)
+            res.key("retain", layer, hist, keep_outer)
             res.count("weakref_samples", len(wr))
+            kept = None
             res.sample({"stack": layer, "history": hist, "weakrefs_dead": {k: r() is None for k, r in wr.items()}}, limit=2)
             b.top.shutdown(False)
         finally:
